@@ -47,6 +47,8 @@ func (p *UnsafePool) get(v Value) *weakRef {
 	id := w.id()
 	r := p.weakrefs[id]
 	if r == nil {
+		// A pool that no longer exists may have left its finalizer on v.
+		setFinalizer(v, nil)
 		setFinalizer(v, p.goFinalizer)
 		r = &weakRef{
 			w:    w,
@@ -78,6 +80,14 @@ func (p *UnsafePool) Mark(v Value, flags MarkFlags) {
 	} else {
 		r.clearFlag(wrReleased)
 	}
+}
+
+// Marked returns true if v is marked in this pool.
+func (p *UnsafePool) Marked(v Value) bool {
+	p.mx.Lock()
+	defer p.mx.Unlock()
+	r := p.weakrefs[getwiface(v).id()]
+	return r != nil && !(r.hasFlag(wrFinalized) && r.hasFlag(wrReleased))
 }
 
 // ExtractPendingFinalize returns the set of values which are being garbage
